@@ -13,7 +13,8 @@ pub fn render(voice: &Value) -> Vec<u8> {
         match vs(&tok["t"]) {
             "u32" => out.extend_from_slice(&(vi(&tok["v"]) as u32).to_le_bytes()),
             "f32" => {
-                let x = vi(&tok["n"]) as f64 / (1u64 << vu(&tok["k"])) as f64;
+                // k = 99 marks the float32 NEGATIVE zero (sign bit set), which no dyadic n / 2^k can denote
+                let x = if vu(&tok["k"]) == 99 { -0.0f64 } else { vi(&tok["n"]) as f64 / (1u64 << vu(&tok["k"])) as f64 };
                 out.extend_from_slice(&(x as f32).to_le_bytes());
             }
             "txt" => out.extend_from_slice(vs(&tok["s"]).as_bytes()),
